@@ -548,6 +548,22 @@ func runHygiene(t ev.Failer, c *ev.Collector, conn *t38.Conn, h hygCase) {
 	for _, s := range append(append([]string{}, h.Keys...), h.Args...) {
 		tokens[s] = true
 	}
+	// a WHEREEVAL clause runs on the same pooled interpreters and is given only
+	// ARGV: whatever an EVAL left behind is visible to it
+	errPath := h.Kind == "compile-error" || h.Kind == "unknown-sha"
+	if errPath && ev.KnownActive(findingLeftover) {
+		c.Excluded(findingLeftover)
+	} else {
+		wv, err := conn.Do("SCAN", "hyg", "WHEREEVAL", "return KEYS == nil and EVAL_CMD == nil and DEADLINE == nil and #ARGV == 1 and ARGV[1] == 'w'", "1", "w", "COUNT")
+		if err != nil || !wv.Equal(t38.Int(1)) {
+			lv, _ := conn.Do("SCAN", "hyg", "WHEREEVAL", "return KEYS ~= nil and KEYS[1] == ARGV[1]", "1", h.Keys[0], "COUNT")
+			key := "hygiene:keys-argv-leaked"
+			if errPath {
+				key = findingLeftover
+			}
+			c.Fail(t, key, fmt.Sprintf("after %q (%s) a WHEREEVAL clause on the same interpreter does not find KEYS/EVAL_CMD/DEADLINE nil: COUNT %v (err %v); KEYS[1] == %q there: COUNT %v", cmd, h.Kind, wv, err, h.Keys[0], lv), rep)
+		}
+	}
 	// >= 6 consecutive calls without keys/args, then one with its own
 	for i := 0; i < 7; i++ {
 		var keys, args []string
@@ -622,7 +638,7 @@ func runPoolCycle(t testing.TB, c *ev.Collector, srv *t38.Srv, round int) (disti
 func TestC18_Hygiene(t *testing.T) {
 	c := ev.New(prop, "hygiene", "exploration")
 	t.Cleanup(c.Flush)
-	c.Rule("a first call (EVAL variants; ending normally, in a runtime error, a compile error, an unknown digest, too few keys, numkeys = 10^14 (regression probe crash-eval-huge-numkeys), or under TIMEOUT) carries 1-4 generated unique tokens as KEYS and ARGV; then 7 consecutive checker calls (drawn variant) without keys/args, the last one with its own: each must see exactly its own KEYS/ARGV, DEADLINE nil, EVAL_CMD = its own command and none of the tokens. Pool cycling: 9 concurrent busy EVALNA scripts with tokens hold 9 interpreters at once, then 9 concurrent checkers: each sees only its own arguments; the number of distinct interpreters (tostring(_G)) the checkers ran on is counted (>= 6 wanted). Non-trivial: every case; distinct by kind, modes, key/arg counts.")
+	c.Rule("a first call (EVAL variants; ending normally, in a runtime error, a compile error, an unknown digest, too few keys, numkeys = 10^14 (regression probe crash-eval-huge-numkeys), or under TIMEOUT) carries 1-4 generated unique tokens as KEYS and ARGV; then a SCAN ... WHEREEVAL clause (which runs on the same pooled interpreter and is given only ARGV) must find KEYS, EVAL_CMD and DEADLINE nil, and 7 consecutive checker calls (drawn variant) without keys/args, the last one with its own: each must see exactly its own KEYS/ARGV, DEADLINE nil, EVAL_CMD = its own command and none of the tokens. Pool cycling: 9 concurrent busy EVALNA scripts with tokens hold 9 interpreters at once, then 9 concurrent checkers: each sees only its own arguments; the number of distinct interpreters (tostring(_G)) the checkers ran on is counted (>= 6 wanted). Non-trivial: every case; distinct by kind, modes, key/arg counts.")
 	if ev.KnownActive(findingPoison) {
 		c.Excluded(findingPoison)
 	}
@@ -630,6 +646,7 @@ func TestC18_Hygiene(t *testing.T) {
 	defer srv.StopAsync()
 	conn := srv.MustDial()
 	defer conn.Close()
+	conn.MustDo("SET", "hyg", "o", "POINT", "1", "2")
 	seq := 0
 	ev.Rapid("hygiene", ev.Pick(400, 1000))
 	rapid.Check(t, func(rt *rapid.T) {
@@ -670,6 +687,41 @@ func TestC18_Hygiene(t *testing.T) {
 // ---- finding probe -------------------------------------------------------------
 
 const findingPoison = "script-mutates-shared-lua-environment"
+
+// findingLeftover: cmdEvalUnified installs KEYS/ARGV/DEADLINE/EVAL_CMD before
+// it compiles the script / looks the digest up, but registers the deferred
+// reset only afterwards; on a compile error or an unknown digest they stay in
+// the pooled interpreter. A later EVAL overwrites all four, but a WHEREEVAL
+// clause sets only ARGV and so reads the earlier call's KEYS.
+const findingLeftover = "script-error-path-leaves-keys"
+
+func probeLeftover(t testing.TB, c *ev.Collector) {
+	srv := mustStart(t, t38.Opts{})
+	defer srv.StopAsync()
+	a, b := srv.MustDial(), srv.MustDial()
+	defer a.Close()
+	defer b.Close()
+	a.MustDo("SET", "k", "o", "POINT", "1", "2")
+	var seen []string
+	for _, first := range [][]string{
+		{"EVAL", "return }", "1", "secret-key", "secret-arg"},
+		{"EVALROSHA", "00000000000000000000000000000000000000aa", "1", "secret-key", "secret-arg"},
+	} {
+		c.Case()
+		fv, _ := a.Do(first...)
+		v, _ := b.Do("SCAN", "k", "WHEREEVAL", "return KEYS ~= nil and KEYS[1] == 'secret-key' and EVAL_CMD ~= nil", "0", "COUNT")
+		if fv.IsErr() && v.Equal(t38.Int(1)) {
+			seen = append(seen, fmt.Sprintf("client A: %s -> %s; client B: SCAN k WHEREEVAL \"return KEYS ~= nil and KEYS[1] == 'secret-key' and EVAL_CMD ~= nil\" 0 COUNT -> 1", t38.CmdString(first), fv))
+		}
+		a.Do("EVAL", "return 1", "0") // a successful call cleans the interpreter again
+	}
+	if len(seen) == 0 {
+		c.Label("leftover:not-reproduced")
+		return
+	}
+	c.NonTrivial("leftover-probe")
+	knownOrViolation(c, findingLeftover, "KEYS/EVAL_CMD of a call that failed to compile (or named an unknown digest) stay in the pooled interpreter and are read by a later WHEREEVAL clause of another client: "+strings.Join(seen, " | "), map[string]any{"sub": "poison", "observations": seen})
+}
 
 // probePoison: the globals table refuses NEW string keys, but the library
 // tables (and existing globals, and the array part of _G via table.insert)
@@ -714,6 +766,7 @@ func probePoison(t testing.TB, c *ev.Collector) {
 func TestC18_Poison(t *testing.T) {
 	c := ev.New(prop, "poison", "exploration")
 	t.Cleanup(c.Flush)
-	c.Rule("deterministic probe of finding " + findingPoison + " on a throw-away server: one client stores its KEYS/ARGV in math, appends to _G with table.insert, replaces tile38.sha1hex, and sets tostring = nil (the last two through EVALRO); a second client then looks. Non-trivial when at least one of the four reproduces.")
+	c.Rule("deterministic probe of finding " + findingPoison + " on a throw-away server: one client stores its KEYS/ARGV in math, appends to _G with table.insert, replaces tile38.sha1hex, and sets tostring = nil (the last two through EVALRO); a second client then looks. Non-trivial when at least one of the four reproduces. Second probe, finding " + findingLeftover + ": EVAL with a syntax error / EVALROSHA with an unknown digest carrying a key, then another client's WHEREEVAL clause reads KEYS[1].")
 	probePoison(t, c)
+	probeLeftover(t, c)
 }
